@@ -183,6 +183,7 @@ pub fn op(w: Weights, maxn: u32) -> BoxedStrategy<Op> {
     }
     if w.forget > 0 {
         v.push((w.forget, (range(), any::<bool>().prop_flat_map(|w| script(w, 5))).prop_map(|(r, s)| Op::Drain(r, s, End::Forget)).boxed()));
+        v.push((1, (range(), 0u8..3, 0u8..3).prop_map(|(r, m, w)| Op::ShiftyRange(r, m, w)).boxed()));
     }
     let v: Vec<(u32, BoxedStrategy<Op>)> = v.into_iter().filter(|x| x.0 > 0).collect();
     proptest::strategy::Union::new_weighted(v).boxed()
